@@ -450,6 +450,10 @@ func C07(p *Prog, r *Run) {
 				}
 			}
 		}
+		if kind == "fast" {
+			r.Check(sw != nil, fn.Name()+".state", p.Pos(fn.Pos()), "an integer state distinguishes `first gene`, `excess on list 1`, `excess on list 2` and `no more excess`",
+				"the backward walk carries no integer state that tells excess genes on either list from disjoint ones (one flag is not enough: a mismatch on the other list than the one holding the excess tail ends the excess region)")
+		}
 		nBack, nExit := 0, 0
 		for _, ip := range paths {
 			if relInfeasible(tm, ip.Conds) {
